@@ -91,6 +91,9 @@ type Sched struct {
 	Races     []string
 	names     map[any]string // display names for lock objects
 	Violation *Violation
+	numbered  int // tasks[:numbered] have their final ids
+	// ClientsOnly ends Run when the tasks spawned by the harness are done, whatever the adopted ones do
+	ClientsOnly bool
 }
 
 func NewSched() *Sched {
@@ -258,9 +261,17 @@ func (s *Sched) point(owner any, name string) {
 	s.park(t)
 }
 
+// taskNamer is implemented (in the verif shims) by owners that tell goroutines of one kind apart.
+type taskNamer interface {
+	VerifTaskName() string
+}
+
 func (s *Sched) goStart(owner any, name string) {
 	if !s.active {
 		return
+	}
+	if tn, ok := owner.(taskNamer); ok {
+		name += ":" + tn.VerifTaskName()
 	}
 	t := s.lookup(owner, true, name)
 	if t == nil {
@@ -272,6 +283,69 @@ func (s *Sched) goStart(owner any, name string) {
 	t.wild = false
 	s.mu.Unlock()
 	s.park(t)
+}
+
+// goEnd marks an adopted goroutine as finished.
+func (s *Sched) goEnd(owner any, name string) {
+	t := s.lookup(owner, false, "")
+	if t == nil || !t.auto {
+		return
+	}
+	s.mu.Lock()
+	t.state = tsDone
+	delete(s.byGid, t.gid)
+	for k, li := range s.locks {
+		if li.holder == t {
+			delete(s.locks, k) // the real mutex was released by the deferred Unlock; a panic skipped the Release hook
+		}
+	}
+	s.mu.Unlock()
+	s.notify()
+}
+
+// AutoAlive counts the adopted goroutines that have not finished.
+func (s *Sched) AutoAlive() int {
+	s.mu.Lock()
+	defer s.mu.Unlock()
+	n := 0
+	for _, t := range s.tasks {
+		if t.auto && !t.dead && t.state != tsDone {
+			n++
+		}
+	}
+	return n
+}
+
+// AutoAliveNames lists the adopted goroutines that have not finished with the hook they were last seen at.
+func (s *Sched) AutoAliveNames() []string {
+	s.mu.Lock()
+	defer s.mu.Unlock()
+	var out []string
+	for _, t := range s.tasks {
+		if t.auto && !t.dead && t.state != tsDone {
+			out = append(out, t.Name+"@"+t.at)
+		}
+	}
+	sort.Strings(out)
+	return out
+}
+
+// Drain ends cooperative scheduling: every parked task is released and the hooks stop parking. What is
+// still running (event chains, retries, re-runs) continues under the Go scheduler.
+func (s *Sched) Drain() {
+	s.mu.Lock()
+	s.active = false
+	var parked []*Task
+	for _, t := range s.tasks {
+		if !t.dead && (t.state == tsParked || t.state == tsWaitLock) {
+			t.state = tsRunning
+			parked = append(parked, t)
+		}
+	}
+	s.mu.Unlock()
+	for _, t := range parked {
+		t.wake <- struct{}{}
+	}
 }
 
 func (s *Sched) acquire(owner any, kind string, obj any) {
@@ -401,6 +475,26 @@ func (s *Sched) KillOwner(owner any) {
 		}
 	}
 	s.mu.Unlock()
+}
+
+// renumber gives the tasks adopted since the last scheduling round their ids in name order: goroutines
+// started together (two cron entries of one tick, two subscribers of one event) reach their first hook
+// in an order the Go scheduler decides, and the ids are what a recorded schedule refers to.
+func (s *Sched) renumber() {
+	if s.numbered >= len(s.tasks) {
+		return
+	}
+	tail := s.tasks[s.numbered:]
+	sort.SliceStable(tail, func(i, j int) bool {
+		if tail[i].auto != tail[j].auto {
+			return !tail[i].auto // tasks spawned by the harness keep their order
+		}
+		return tail[i].auto && tail[i].Name < tail[j].Name
+	})
+	for i, t := range tail {
+		t.ID = s.numbered + i
+	}
+	s.numbered = len(s.tasks)
 }
 
 func (s *Sched) runnable() []*Task {
@@ -535,6 +629,7 @@ func (s *Sched) Run() {
 			s.mu.Unlock()
 			continue
 		}
+		s.renumber()
 		run := s.runnable()
 		alive, wild := 0, 0
 		for _, t := range s.tasks {
@@ -544,6 +639,18 @@ func (s *Sched) Run() {
 			alive++
 			if t.state == tsRunning {
 				wild++
+			}
+		}
+		if s.ClientsOnly {
+			clients := 0
+			for _, t := range s.tasks {
+				if !t.auto && !t.dead && t.state != tsDone {
+					clients++
+				}
+			}
+			if clients == 0 {
+				s.mu.Unlock()
+				return
 			}
 		}
 		if len(run) == 0 {
